@@ -340,9 +340,23 @@ def differential_evolution_inside_bounds(h):
             x = xs
             fun = seen["cost"]
         return R()
-    h.patch(rg, differential_evolution=de_contract)
+    _, dscore = gc.smooth_ufunc(h, "score_grad", p, seed=6)
+    gp.model_selector_gradient = lambda t: (score(t), np.array([d(t) for d in dscore], dtype=object if h.sym else float))
+
+    def lbfgs_contract(func, x0, fprime=None, args=(), approx_grad=False, bounds=None, **kw):
+        """any other optimiser the selection may hand its result to: returns a point inside the bounds *it was given* and
+        no worse than its start -- anywhere at all when it was given no bounds"""
+        k = len(seen.setdefault("polish", []))
+        if bounds is None:
+            xs = np.array(h.real(f"free{k}", p), dtype=object)
+        else:
+            fr = h.real(f"pol{k}", p, lo=0, hi=1)
+            xs = np.array([b[0] + fr[i] * (b[1] - b[0]) for i, b in enumerate(bounds)], dtype=object)
+        seen["polish"].append(xs)
+        return xs, func(xs)[0] if not approx_grad else func(xs), {"warnflag": 0}
+    h.patch(rg, differential_evolution=de_contract, fmin_l_bfgs_b=lbfgs_contract)
     sol = gp.differential_evo()
     h.ge("selected >= lower bounds", sol, lo)
     h.le("selected <= upper bounds", sol, lo + wd)
-    if h.sym:
+    if h.sym and not seen.get("polish"):
         h.eq("the optimiser minimises the negative score", seen["cost"], -score(sol))
